@@ -78,8 +78,10 @@ Definition key_n : skey := (32%N, None).
 Definition key_z : skey := (33%N, None).
 Definition key_c : skey := (34%N, None).
 Definition key_v : skey := (35%N, None).
+Definition key_vr (n : Z) : skey := (Z.to_N (38 + n), None).
 Definition b2z (b : bool) : Z := if b then 1 else 0.
 
+Definition vregs : list Z := [0;1;2;3;4;5;6;7;8;9;10;11;12;13;14;15;16;17;18;19;20;21;22;23;24;25;26;27;28;29;30;31].
 Definition xregs : list Z := [0;1;2;3;4;5;6;7;8;9;10;11;12;13;14;15;16;17;18;19;20;21;22;23;24;25;26;27;28;29;30].
 
 (* the IL state the oracle starts from: every architectural scalar defined; memory holds exactly
@@ -87,16 +89,18 @@ Definition xregs : list Z := [0;1;2;3;4;5;6;7;8;9;10;11;12;13;14;15;16;17;18;19;
 Definition embed (s : a64state) (mapped : list Z) : sstate :=
   mkst (map (fun n => (key_x n, mkc 64 (xr s n))) xregs ++
         [(key_sp, mkc 64 (asp s)); (key_n, mkc 1 (b2z (fN s))); (key_z, mkc 1 (b2z (fZ s)));
-         (key_c, mkc 1 (b2z (fC s))); (key_v, mkc 1 (b2z (fV s)))])
+         (key_c, mkc 1 (b2z (fC s))); (key_v, mkc 1 (b2z (fV s)))] ++
+        map (fun n => (key_vr n, mkc 128 (vr s n))) vregs)
        (mkbmem (abig s) (map (fun a => (a, amem s a)) mapped)).
 
 Definition const_is (o : option const) (w v : Z) : bool :=
   match o with Some c => (cbits c =? w) && (cval c =? v) | None => false end.
 
 (* comparison of the final IL state with the machine state the specification yields:
-   X0..X30, SP, N Z C V; every byte of [watch] ; no byte outside [watch] was written *)
+   X0..X30, V0..V31, SP, N Z C V; every byte of [watch] ; no byte outside [watch] was written *)
 Definition agree (s : a64state) (st : sstate) (watch : list Z) : bool :=
   forallb (fun n => const_is (env_get (st_env st) (key_x n)) 64 (xr s n)) xregs &&
+  forallb (fun n => const_is (env_get (st_env st) (key_vr n)) 128 (vr s n)) vregs &&
   const_is (env_get (st_env st) key_sp) 64 (asp s) &&
   const_is (env_get (st_env st) key_n) 1 (b2z (fN s)) &&
   const_is (env_get (st_env st) key_z) 1 (b2z (fZ s)) &&
